@@ -4,6 +4,8 @@ package process
 // failure, no further work after the first error.
 
 import (
+	"time"
+
 	"grits/position"
 	"grits/types"
 
@@ -64,6 +66,38 @@ func ZZC09Worker() {
 }
 
 func init() { vn.Register("process.ZZC09Worker", ZZC09Worker) }
+
+// ZZC09Slow: a verdict does not depend on how long checking takes. One body takes 2.5 s to
+// check (virtual time under gse, real time natively) and is then accepted or rejected; Typecheck
+// must still answer with that verdict (a notice or time-out that turns slowness into success
+// would let an ill-typed program through the gate).
+func ZZC09Slow() {
+	unit := func() types.SessionType {
+		return types.ConvertSessionTypeInitialToSessionType(types.NewUnitTypeInitial())
+	}
+	bad := vn.Bool()
+	inFunction := vn.Bool()
+	defs := []types.SessionTypeDefinition{{Name: "T", SessionType: unit()}}
+	types.SetModalityTypeDef(defs)
+	fq := &zzProbe{id: 0, accept: true}
+	pq := &zzProbe{id: 1, accept: true}
+	slowOne := pq
+	if inFunction {
+		slowOne = fq
+	}
+	slowOne.slow = 2500 * time.Millisecond
+	slowOne.accept = !bad
+	funs := []FunctionDefinition{{FunctionName: "f", Body: fq, Type: unit()}}
+	procs := []*Process{NewProcess(pq, []Name{{Ident: "m", IsSelf: true}}, unit(), LINEAR, position.Position{})}
+	genv := &GlobalEnvironment{Types: &defs, FunctionDefinitions: &funs}
+	err := Typecheck(procs, nil, genv)
+	vn.Assert("C09.slow-typechecking-still-gets-its-verdict", (err != nil) == bad)
+	vn.Assert("C18.slow-typechecking-does-not-open-the-gate", !bad || err != nil)
+	vn.Drain()
+	vn.Observe("rejected", err != nil)
+}
+
+func init() { vn.Register("process.ZZC09Slow", ZZC09Slow) }
 
 // zzBuildProgram assembles a tiny program from defect switches (as ZZC09Worker does).
 func zzBuildProgram(e1, e2, e3, e4, e5 bool) ([]*Process, *GlobalEnvironment) {
